@@ -772,15 +772,10 @@ func ruleWIN5(c *Checker) {
 	}
 	// WIN-5
 	roomFact := func(f Fact) bool {
-		bo, ok := f.Cond.(*ssa.BinOp)
-		if !ok {
-			return false
-		}
-		call, ok := bo.X.(*ssa.Call)
-		if !ok || call.Common().StaticCallee() != size || !isLoadOfField(bo.Y, fN) {
-			return false
-		}
-		return (bo.Op == token.LSS && f.Val) || (bo.Op == token.GEQ && !f.Val)
+		return factRel(f, func(v ssa.Value) bool {
+			call, ok := v.(*ssa.Call)
+			return ok && call.Common().StaticCallee() == size
+		}, func(v ssa.Value) bool { return isLoadOfField(v, fN) }) == "<"
 	}
 	hasRoomOnEdge := func(p, s *ssa.BasicBlock) bool {
 		for _, f := range factsOnEdge(p, s) {
